@@ -433,15 +433,41 @@ fn adversary_op(w: &mut World, s: &mut Src, a: usize, obs: &mut Obs) {
     match s.weighted(&[10, 4, 4, 2, 3, 3, 3, 1]) {
         0 => {
             let spec = spec_from(s, true, false);
-            let n = 1 + s.weighted_n(3);
+            let n = if s.chance(6) {
+                // a long pipelined burst that the application leaves unanswered for a while
+                obs.label("adversary_burst_of_150+_requests");
+                s.range(130, 200)
+            } else {
+                1 + s.weighted_n(3)
+            };
+            let spec = if n > 10 { ReqSpec { method: 0, version: 1, body: 0, expect: false, extra_headers: 0, body_kind: 0 } } else { spec };
             for _ in 0..n {
                 w.send_request(a, &spec, &[]);
             }
         }
         1 => {
             w.clients[a].dirty = true;
-            let g = GARBAGE[s.below(GARBAGE.len())];
-            w.send_raw(a, g);
+            if s.chance(60) {
+                // long binary garbage: an over-long header line full of non-UTF-8 bytes, at several alignments
+                let mut g = b"GET / HTTP/1.1\r\n".to_vec();
+                g.extend(std::iter::repeat(b'X').take(s.below(4)));
+                let kind = s.below(3);
+                let n = s.range(1000, 2600);
+                match kind {
+                    0 => g.extend(std::iter::repeat(0xffu8).take(n)),
+                    1 => g.extend(crate::src::filler(1, s.u8(), n)),
+                    _ => {
+                        for i in 0..n {
+                            g.push(if i % 3 == 0 { 0xe2 } else { b'a' });
+                        }
+                    }
+                }
+                w.send_raw(a, &g);
+                obs.label("adversary_long_binary_garbage");
+            } else {
+                let g = GARBAGE[s.below(GARBAGE.len())];
+                w.send_raw(a, g);
+            }
             obs.label("adversary_garbage");
         }
         2 => {
@@ -1712,10 +1738,22 @@ fn c07_hist(input: &Input, obs: &mut Obs) -> Result<(), Fail> {
                     }
                 }
                 _ => {
+                    if w.outstanding.len() >= 2 && s.chance(128) {
+                        // a batch through enqueue_responses (several for one connection keep their order)
+                        let n = s.range(2, w.outstanding.len().min(5));
+                        let ks: Vec<usize> = (0..n).map(|_| s.below(w.outstanding.len())).collect();
+                        w.respond_batch(&ks, 200, s.range(0, 200));
+                        obs.label("batched_respond");
+                    }
                     w.settle(200, false);
                     c07_audit_all(&w)?;
                 }
             }
+        }
+        if w.outstanding.len() >= 2 && s.chance(128) {
+            let ks: Vec<usize> = (0..w.outstanding.len()).collect();
+            w.respond_batch(&ks, 200, 40);
+            obs.label("batched_respond");
         }
         while !w.outstanding.is_empty() {
             let k = s.below(w.outstanding.len());
@@ -2077,12 +2115,26 @@ fn c04_server(input: &Input, obs: &mut Obs) -> Result<(), Fail> {
                 let over = n > l;
                 if over {
                     // headers only: the verdict must come before any body byte
+                    let front = l >= 3 && s.chance(100);
+                    let mut bytes = Vec::new();
+                    let n100_before = audit_client(&w, c)?.n100;
+                    if front {
+                        // a complete request with Expect: 100-continue pipelined in front, same send:
+                        // the client must get both the interim response and the 400
+                        let fs = ReqSpec { method: 1, version: 1, body: 3, expect: true, extra_headers: 0, body_kind: 0 };
+                        bytes.extend_from_slice(&w.compose(c, &fs));
+                        obs.label("over_limit_behind_expect_request_in_one_send");
+                    }
                     let probe = w.compose(c, &spec);
                     let hdr = probe.len() - n;
                     w.clients[c].dirty = true;
-                    w.send_raw(c, &probe[..hdr]);
+                    bytes.extend_from_slice(&probe[..hdr]);
+                    w.send_raw(c, &bytes);
                     w.settle(200, true);
                     let a = audit_client(&w, c)?;
+                    if front && a.n100 != n100_before + 1 {
+                        return Err(("interim".into(), format!("the qualifying Expect request in front of the over-limit one got {} interim responses", a.n100 - n100_before)));
+                    }
                     if a.n400 != 1 {
                         return Err(("no-400".into(), format!("client {} (limit {} when it connected) declared {} bytes and received {} 400 responses", c, l, n, a.n400)));
                     }
